@@ -373,7 +373,10 @@ func genReq(r *rand.Rand) gcase {
 	return gcase{format: "requirements", data: data, expect: exp, known: true, class: "wf-" + e.String()}
 }
 
-var reqPool = []string{"requests==2.31.0", "zope.interface==5.0", "q==1.0", "flask>=2.0", "a<2", "b!=1", "c>=1,<2", "d==1.*", "e>1.0", "f @ https://x/y.whl", "g[extra]==1.0", "h==1.0 ; python_version<'3'", "i==1.0 --hash=sha256:ab", "j==1.0 \\", "    --hash=sha256:cd", "# comment", "k==1.0 # c", "k==1.0#notcomment", "-r x.txt", "-e .", "", "  ", "asdf 1.0", "l ==1.0", "m== 1.0", "${X}==1", "n==${V}", "o[", "p]==1", "q[a][b]==2", "[x]r==1", "s==", "==1.0", "_t==1", "u_==1", "v-==1", ".w==1", "x.==1", "y===1.0", "z~=1.4.2", "aa<=3", "-Cfoo", "bb-Cc==1", "cc==1 -C x", "dd==1\\", "ee==1 \\\\", "ff==1\r", "g\tg==1", "hh==1;", ";ii==1", "jj==1==2", "kk>=1==2", "ll==1>=2", "\xc2\xa0mm==1", "nn==1\xc2\xa0", "\xe2\x80\x83oo==1", "pp==1 #", "#", " #", "qq==1\x0c# ff", "rr==1\x0b# vt"}
+var reqPool = []string{"requests==2.31.0", "zope.interface==5.0", "q==1.0", "flask>=2.0", "a<2", "b!=1", "c>=1,<2", "d==1.*", "e>1.0", "f @ https://x/y.whl", "g[extra]==1.0", "h==1.0 ; python_version<'3'", "i==1.0 --hash=sha256:ab", "j==1.0 \\", "    --hash=sha256:cd", "# comment", "k==1.0 # c", "k==1.0#notcomment", "-r x.txt", "-e .", "", "  ", "asdf 1.0", "l ==1.0", "m== 1.0", "${X}==1", "n==${V}", "o[", "p]==1", "q[a][b]==2", "[x]r==1", "s==", "==1.0", "_t==1", "u_==1", "v-==1", ".w==1", "x.==1", "y===1.0", "z~=1.4.2", "aa<=3", "-Cfoo", "bb-Cc==1", "cc==1 -C x", "dd==1\\", "ee==1 \\\\", "ff==1\r", "g\tg==1", "hh==1;", ";ii==1", "jj==1==2", "kk>=1==2", "ll==1>=2", "\xc2\xa0mm==1", "nn==1\xc2\xa0", "\xe2\x80\x83oo==1", "pp==1 #", "#", " #", "qq==1\x0c# ff", "rr==1\x0b# vt",
+	// bracket soup: ']' before '[', unbalanced, nested, adjacent
+	"requests][security]==2.31.0", "x][y]==1", "a][b", "][", "]==1", "a]==1", "[[a]]==1", "a[b[c]d]e==1", "a[[b]==1", "a[b]]==1", "a[]==1", "[]", "[][]==2", "a[b][c][d]==3",
+	"a[b]c[d]e==4", "zz[==1", "[zz==1", "a[b;c]==1", "a[b ]==1", "a [ b ] == 1", "a[b]==1[c]", "a==1[c]", "a[x#y]==1"}
 
 func badReq(r *rand.Rand) gcase {
 	var data []byte
